@@ -6,6 +6,7 @@ func init() {
 	vxRegister("H11aQ", H11aQ)
 	vxRegister("H11aT", H11aT)
 	vxRegister("H11http", H11http)
+	vxRegister("H11long", H11long)
 	vxRegister("H11pad", H11pad)
 	vxRegister("H11dash", H11dash)
 	vxRegister("H11tmpl", H11tmpl)
@@ -54,6 +55,22 @@ func H11pad() {
 	in = append(in, vxBytes(2)...)
 	in = append(in, " tail of the line\nzz yy\n"...)
 	h11a(in, "pad")
+}
+
+// H11long: a text longer than the read buffer whose normalized form is shorter by 1..3 bytes, so that
+// the symbolic bytes sit at the 1020-byte boundary in one pass and just before it in the other.
+func H11long() {
+	lead := vxChoice(4)
+	in := make([]byte, 0, 1100)
+	for i := 0; i < lead; i++ {
+		in = append(in, ' ')
+	}
+	for i := 0; i < 339; i++ {
+		in = append(in, "ab "...)
+	}
+	in = append(in, vxBytes(2)...)
+	in = append(in, " tail of the line\nzz yy\n"...)
+	h11a(in, "long")
 }
 
 // H11http: the known re-normalisation class (a cleaned token that contains "https").
